@@ -150,6 +150,11 @@ def cmd_wt(sid, checks, verify=True):
     env = dict(ENV, PV_REPO=wt)
     meta = json.load(open(f"{d}/meta.json"))
     try:
+        if verify and os.path.exists(f"{d}/demo/run.sh"):
+            dr = subprocess.run(f"cd {d}/demo && WT={wt} bash run.sh {wt}", shell=True, text=True, errors="replace", capture_output=True, env=env)
+            meta["demo_without_change"] = "passes (exit 0)" if dr.returncode == 0 else "FAILS ON THE CLEAN TREE (exit %d)" % dr.returncode
+            sh(f"git -C {wt} checkout -- . && git -C {wt} clean -fdq")
+            print(f"{sid}: demo on the clean tree: {meta['demo_without_change']}")
         if meta.get("apply_full"):
             # the change is about WHICH files were (not) regenerated: apply the agent's patch as it is
             r = sh(f"git -C {wt} apply --whitespace=nowarn {d}/patch.orig.diff")
